@@ -1,2 +1,192 @@
-//! Child worker process for hostile inputs (filled in with C12).
-pub fn worker_main(_args: &[String]) {}
+//! Child worker processes for operations that may hang, abort, overflow the stack or exhaust
+//! memory (hostile query strings, mutilated logs / snapshots).
+//!
+//! Parent side: `WorkerPool::new("c12", mem_bytes)`; `pool.call(request_line, timeout)` sends one
+//! line to an idle worker and waits for one reply line. A timeout kills that worker (the next call
+//! spawns a fresh one); a worker that dies reports how. Worker side: `vcheck --worker <kind>` reads
+//! request lines from stdin and answers each with exactly one line produced by
+//! `props::worker_dispatch(kind, request)`; panics inside the handler are caught and reported as a
+//! reply line starting with `PANIC `.
+//!
+//! Requests and replies must not contain `\n` (encode with `esc`/`unesc` or JSON).
+
+use std::io::{BufRead, BufReader, Write};
+use std::process::{Child, ChildStdin, Command, Stdio};
+use std::sync::Mutex;
+use std::sync::mpsc::{Receiver, RecvTimeoutError, channel};
+use std::time::Duration;
+
+#[derive(Debug, Clone, PartialEq, Eq)]
+pub enum Reply {
+    /// One reply line (without the trailing newline).
+    Line(String),
+    /// No reply within the deadline; the worker was killed.
+    Timeout,
+    /// The worker process died (signal / exit status text) before replying.
+    Died(String),
+}
+
+struct Worker {
+    child: Child,
+    stdin: ChildStdin,
+    rx: Receiver<String>,
+}
+
+impl Worker {
+    fn spawn(kind: &str, mem_bytes: u64) -> std::io::Result<Worker> {
+        let exe = std::env::current_exe()?;
+        let mut cmd = Command::new(exe);
+        cmd.arg("--worker").arg(kind).stdin(Stdio::piped()).stdout(Stdio::piped()).stderr(Stdio::null());
+        #[cfg(unix)]
+        {
+            use std::os::unix::process::CommandExt;
+            // SAFETY: setrlimit is async-signal-safe; nothing else happens between fork and exec.
+            unsafe {
+                cmd.pre_exec(move || {
+                    if mem_bytes > 0 {
+                        let lim = libc::rlimit { rlim_cur: mem_bytes, rlim_max: mem_bytes };
+                        libc::setrlimit(libc::RLIMIT_AS, &lim);
+                    }
+                    // no core dumps
+                    let z = libc::rlimit { rlim_cur: 0, rlim_max: 0 };
+                    libc::setrlimit(libc::RLIMIT_CORE, &z);
+                    Ok(())
+                });
+            }
+        }
+        let mut child = cmd.spawn()?;
+        let stdin = child.stdin.take().unwrap();
+        let stdout = child.stdout.take().unwrap();
+        let (tx, rx) = channel();
+        std::thread::spawn(move || {
+            let rd = BufReader::new(stdout);
+            for line in rd.lines() {
+                match line {
+                    Ok(l) => {
+                        if tx.send(l).is_err() {
+                            break;
+                        }
+                    }
+                    Err(_) => break,
+                }
+            }
+        });
+        Ok(Worker { child, stdin, rx })
+    }
+
+    fn kill(mut self) -> String {
+        let _ = self.child.kill();
+        match self.child.wait() {
+            Ok(st) => format!("{st}"),
+            Err(e) => format!("wait failed: {e}"),
+        }
+    }
+}
+
+pub struct WorkerPool {
+    kind: String,
+    mem_bytes: u64,
+    idle: Mutex<Vec<Worker>>,
+}
+
+impl WorkerPool {
+    pub fn new(kind: &str, mem_bytes: u64) -> Self {
+        WorkerPool { kind: kind.to_string(), mem_bytes, idle: Mutex::new(Vec::new()) }
+    }
+
+    pub fn call(&self, request: &str, timeout: Duration) -> Reply {
+        debug_assert!(!request.contains('\n'));
+        let w = self.idle.lock().unwrap().pop();
+        let mut w = match w {
+            Some(w) => w,
+            None => match Worker::spawn(&self.kind, self.mem_bytes) {
+                Ok(w) => w,
+                Err(e) => return Reply::Died(format!("spawn failed: {e}")),
+            },
+        };
+        if writeln!(w.stdin, "{request}").and_then(|()| w.stdin.flush()).is_err() {
+            let st = w.kill();
+            return Reply::Died(format!("write failed; {st}"));
+        }
+        match w.rx.recv_timeout(timeout) {
+            Ok(line) => {
+                self.idle.lock().unwrap().push(w);
+                Reply::Line(line)
+            }
+            Err(RecvTimeoutError::Timeout) => {
+                w.kill();
+                Reply::Timeout
+            }
+            Err(RecvTimeoutError::Disconnected) => {
+                let st = match w.child.wait() {
+                    Ok(st) => format!("{st}"),
+                    Err(e) => format!("wait failed: {e}"),
+                };
+                Reply::Died(st)
+            }
+        }
+    }
+}
+
+impl Drop for WorkerPool {
+    fn drop(&mut self) {
+        for w in self.idle.lock().unwrap().drain(..) {
+            w.kill();
+        }
+    }
+}
+
+/// Escapes a string into a single line (`\n`, `\r`, `\\`).
+pub fn esc(s: &str) -> String {
+    let mut o = String::with_capacity(s.len());
+    for c in s.chars() {
+        match c {
+            '\\' => o.push_str("\\\\"),
+            '\n' => o.push_str("\\n"),
+            '\r' => o.push_str("\\r"),
+            c => o.push(c),
+        }
+    }
+    o
+}
+
+pub fn unesc(s: &str) -> String {
+    let mut o = String::with_capacity(s.len());
+    let mut it = s.chars();
+    while let Some(c) = it.next() {
+        if c == '\\' {
+            match it.next() {
+                Some('n') => o.push('\n'),
+                Some('r') => o.push('\r'),
+                Some('\\') => o.push('\\'),
+                Some(x) => {
+                    o.push('\\');
+                    o.push(x);
+                }
+                None => o.push('\\'),
+            }
+        } else {
+            o.push(c);
+        }
+    }
+    o
+}
+
+/// Worker side main loop.
+pub fn worker_main(args: &[String]) {
+    let kind = args.first().cloned().unwrap_or_default();
+    crate::driver::install_panic_hook();
+    let stdin = std::io::stdin();
+    let stdout = std::io::stdout();
+    for line in stdin.lock().lines() {
+        let Ok(line) = line else { break };
+        let reply = match crate::driver::catch(|| crate::props::worker_dispatch(&kind, &line)) {
+            Ok(r) => r,
+            Err(p) => format!("PANIC {}", esc(&format!("{}\t{}", p.signature(), p.msg))),
+        };
+        let mut out = stdout.lock();
+        if writeln!(out, "{}", reply.replace('\n', " ")).and_then(|()| out.flush()).is_err() {
+            break;
+        }
+    }
+}
